@@ -284,7 +284,7 @@ func (g *c19gen) stmt(ind, depth int, inFunc bool) {
 }
 
 // c19Generate builds one program.
-func c19Generate(r *rng, wild bool) c19Prog {
+func c19Generate(r *rng, wild bool, cell int) c19Prog {
 	g := &c19gen{r: r, wild: wild}
 	p := c19Prog{FuncFirst: map[string]int{}, Wild: wild, Tag: "gen"}
 	g.emit(0, "package main")
@@ -349,9 +349,80 @@ func c19Generate(r *rng, wild bool) c19Prog {
 		g.callee = append(g.callee, name)
 		p.Funcs = append(p.Funcs, name)
 	}
-	// package-level variables initialised by calls: their initialisers run on the root frame
+	// Callee kinds (cell/2 odd): a type with methods of every receiver form; the debugger's enterCall
+	// is reached for every interpreted call and names the frame after the callee.
+	var methodCalls []string
+	if (cell/4)%2 == 1 {
+		g.emit(0, "")
+		g.emit(0, "type T1 struct{ n int }")
+		recvs := []struct{ recv, use string }{
+			{"t T1", " + t.n"}, {"t *T1", " + t.n"}, {"T1", ""}, {"*T1", ""}, {"_ T1", ""},
+		}
+		for k, rc := range recvs {
+			name := fmt.Sprintf("M%d", k+1)
+			g.loops, g.defers, g.chans = 0, 0, 0
+			g.emit(0, "")
+			g.emit(0, fmt.Sprintf("func (%s) %s(a int) int {", rc.recv, name))
+			p.FuncFirst[name] = len(g.lines) + 1
+			p.Funcs = append(p.Funcs, name)
+			g.marker(1)
+			g.emit(1, "x := a")
+			g.block(1, 1, 0, 2, false, true)
+			g.emit(1, fmt.Sprintf("return x%s + %d", rc.use, k))
+			g.emit(0, "}")
+		}
+		g.emit(0, "")
+		g.emit(0, "type I1 interface {")
+		g.emit(1, "M1(int) int")
+		g.emit(1, "M3(int) int")
+		g.emit(1, "M5(int) int")
+		g.emit(0, "}")
+		// call forms: direct, through an interface (value receivers), as a method value, deferred
+		for k := range recvs {
+			name := fmt.Sprintf("M%d", k+1)
+			forms := []string{"direct", "value"}
+			if k == 0 || k == 2 || k == 4 {
+				forms = append(forms, "iface")
+			}
+			switch forms[(cell/8+k+r.intn(2))%len(forms)] {
+			case "direct":
+				methodCalls = append(methodCalls, fmt.Sprintf("x = tv.%s(x%%4) %% 7", name))
+			case "iface":
+				methodCalls = append(methodCalls, fmt.Sprintf("x = iv.%s(x%%4) %% 7", name))
+			default:
+				mv := g.fresh("mv")
+				methodCalls = append(methodCalls, fmt.Sprintf("%s := tv.%s", mv, name), fmt.Sprintf("x = %s(x%%4) %% 7", mv))
+			}
+		}
+	}
+	// package-level variables with an initialiser, which runs on the root frame (cell%4: none, a call,
+	// a function literal, a composite literal of function literals: closures whose capture frame is
+	// cloned from the root frame)
 	var globals []string
-	if r.chance(35) {
+	var rootLits []string
+	switch {
+	case !wild && cell%4 == 2:
+		p.Globals = 1
+		g.emit(0, "")
+		g.emit(0, "var h0 = func(v int) int {")
+		g.marker(1)
+		g.emit(1, fmt.Sprintf("return v + %d", 1+r.intn(3)))
+		g.emit(0, "}")
+		rootLits = append(rootLits, "x = h0(x) % 9")
+	case !wild && cell%4 == 3:
+		p.Globals = 1
+		g.emit(0, "")
+		g.emit(0, "var tab = []func(int) int{")
+		for k := 0; k < 2; k++ {
+			g.emit(1, "func(v int) int {")
+			g.marker(2)
+			g.emit(2, fmt.Sprintf("return v*%d + 1", k+2))
+			g.emit(1, "},")
+		}
+		g.emit(0, "}")
+		rootLits = append(rootLits, "x = tab[x%2](x) % 9", "x = tab[(x+1)%2](x) % 9")
+	}
+	if (wild && r.chance(35)) || (!wild && cell%4 == 1) {
 		ng := 1 // the main stream has at most one: see the finding C19-linebp-globals
 		if wild {
 			ng = 1 + r.intn(3)
@@ -373,6 +444,16 @@ func c19Generate(r *rng, wild bool) c19Prog {
 	g.emit(1, fmt.Sprintf("x := %d", r.intn(4)))
 	for _, gv := range globals {
 		g.emit(1, fmt.Sprintf("x = x + %s%%3", gv))
+	}
+	if len(methodCalls) > 0 {
+		g.emit(1, "tv := T1{n: 1}")
+		g.emit(1, "var iv I1 = tv")
+		for _, c := range methodCalls {
+			g.emit(1, c)
+		}
+	}
+	for _, c := range rootLits {
+		g.emit(1, c)
 	}
 	g.block(1, 2, 3, 7, false, false)
 	// every function is called at least once
